@@ -12,7 +12,10 @@
    Part E: the theorems of props/C08_Property.v transported onto the generated functions.
 
    props/C08_Generated.v states the theorems and closes each with [exact]. *)
-From Coq Require Import List Bool String Ascii NArith ZArith Lia Permutation.
+From Coq Require Import List Bool String Ascii NArith ZArith Permutation.
+(* No [lia] in this file, and local lia-free versions of the few GoLib lemmas proved with it:
+   Print Assumptions walks through the whole micromega development for every theorem that
+   depends on one [lia] proof (0.4 s each, 25 theorems in props/C08_Generated.v). *)
 From NV Require Import Base Regex Generated GoLib C08_Model C08_Proofs C08_Gen.
 Import ListNotations.
 Local Open Scope string_scope.
@@ -33,9 +36,9 @@ Proof.
   induction s as [|a s IH]; intros i acc; [reflexivity|].
   cbn [str_last_index_from last_at has_prefix]. rewrite IH.
   destruct (last_at s) as [p|].
-  - cbn [String.length]. lia.
+  - cbn [String.length]. rewrite Nat2Z.inj_succ, <- Z.add_1_l, Z.add_assoc. reflexivity.
   - rewrite andb_true_r, (ascii_eqb_sym "@" a).
-    destruct (Ascii.eqb a "@"); [cbn [String.length]; lia|reflexivity].
+    destruct (Ascii.eqb a "@"); [cbn [String.length Z.of_nat]; symmetry; apply Z.add_0_r|reflexivity].
 Qed.
 
 Lemma last_index_at s :
@@ -51,9 +54,9 @@ Proof.
   induction s as [|a s IH]; intros p H; [discriminate|].
   cbn [last_at] in H. destruct (last_at s) as [q|].
   - inversion H; subst p. destruct (IH q eq_refl) as [H1 H2]. cbn [String.length take].
-    rewrite H1. split; [reflexivity|lia].
+    rewrite H1. split; [reflexivity|apply le_n_S; exact H2].
   - destruct (Ascii.eqb a "@"); [|discriminate]. inversion H; subst p.
-    cbn [String.length take]. split; [reflexivity|lia].
+    cbn [String.length take]. split; [reflexivity|apply Nat.le_0_l].
 Qed.
 
 Lemma slice_last_at s p : last_at s = Some p ->
@@ -63,7 +66,8 @@ Proof.
   replace ((0 <=? 0)%Z && (0 <=? Z.of_nat (String.length p))%Z
            && (Z.of_nat (String.length p) <=? Z.of_nat (String.length s))%Z) with true.
   - rewrite Z.sub_0_r, Nat2Z.id. cbn [Z.to_nat drop]. rewrite H1. reflexivity.
-  - symmetry. rewrite !andb_true_iff. repeat split; apply Z.leb_le; lia.
+  - symmetry. rewrite !andb_true_iff. repeat split; apply Z.leb_le;
+      first [apply Z.le_refl|apply Nat2Z.is_nonneg|apply Nat2Z.inj_le; exact H2].
 Qed.
 
 (* ---- strings.TrimSpace(n) == "" is the model's [blank n] ---- *)
@@ -136,14 +140,23 @@ Proof.
     solve_atoms.
 Qed.
 
+(* k <= S (.. (S n)) for a literal k *)
+Ltac le_closed := repeat apply le_n_S; apply Nat.le_0_l.
+
+Lemma sub_le_fuel a n f : (a <= S f -> a - S n <= f)%nat.
+Proof.
+  destruct a as [|m]; intros H; [apply Nat.le_0_l|]. cbn [Nat.sub].
+  apply (Nat.le_trans _ m); [apply Nat.le_sub_l|apply le_S_n; exact H].
+Qed.
+
 Lemma space_prefix_len_le l : (space_prefix_len l <= List.length l)%nat.
 Proof.
-  destruct l as [|c [|x [|y t]]]; cbn [space_prefix_len List.length]; split_ifs; lia.
+  destruct l as [|c [|x [|y t]]]; cbn [space_prefix_len List.length]; split_ifs; le_closed.
 Qed.
 
 Lemma space_suffix_len_le l : (space_suffix_len l <= List.length l)%nat.
 Proof.
-  destruct l as [|c [|x [|y t]]]; cbn [space_suffix_len List.length]; split_ifs; lia.
+  destruct l as [|c [|x [|y t]]]; cbn [space_suffix_len List.length]; split_ifs; le_closed.
 Qed.
 
 Lemma trim_prefix_spec : forall fuel l, (List.length l <= fuel)%nat ->
@@ -151,10 +164,10 @@ Lemma trim_prefix_spec : forall fuel l, (List.length l <= fuel)%nat ->
   /\ blank_b (trim_with space_prefix_len fuel l) = blank_b l.
 Proof.
   induction fuel as [|fuel IH]; intros l Hl.
-  - destruct l; [split; reflexivity|cbn in Hl; lia].
+  - destruct l; [split; reflexivity|cbn in Hl; inversion Hl].
   - cbn [trim_with]. destruct (space_prefix_len l) as [|n] eqn:E; [split; [exact E|reflexivity]|].
     pose proof (space_prefix_len_le l) as Hle.
-    assert (Hs : (List.length (skipn (S n) l) <= fuel)%nat) by (rewrite skipn_length; lia).
+    assert (Hs : (List.length (skipn (S n) l) <= fuel)%nat) by (rewrite skipn_length; apply sub_le_fuel; exact Hl).
     destruct (IH _ Hs) as [H1 H2]. split; [exact H1|].
     rewrite H2. rewrite (blank_b_step l), E. reflexivity.
 Qed.
@@ -169,7 +182,7 @@ Qed.
 Lemma whole_chunk r : r <> [] -> space_suffix_len r = List.length r -> space_prefix_len (rev r) <> O.
 Proof.
   destruct r as [|c [|d [|e [|f t]]]]; intros Hne; [contradiction| | | |];
-    cbn [space_suffix_len space_prefix_len rev app List.length]; split_ifs; try discriminate; try lia.
+    cbn [space_suffix_len space_prefix_len rev app List.length]; split_ifs; discriminate.
 Qed.
 
 Lemma trim_suffix_nonempty : forall fuel r,
@@ -181,7 +194,8 @@ Proof.
   apply IH.
   - intros Hnil. apply (whole_chunk r Hne); [|exact Hp].
     assert (Hl : (List.length (skipn (S n) r) = 0)%nat) by (rewrite Hnil; reflexivity).
-    rewrite skipn_length in Hl. lia.
+    rewrite skipn_length in Hl. apply Nat.sub_0_le in Hl. rewrite E in Hle.
+    rewrite E. apply Nat.le_antisymm; assumption.
   - destruct (space_prefix_len (rev (skipn (S n) r))) eqn:E2; [reflexivity|]. exfalso.
     apply (space_prefix_len_app (rev (skipn (S n) r)) (rev (firstn (S n) r))); [congruence|].
     rewrite <- rev_app_distr, firstn_skipn. exact Hp.
@@ -209,6 +223,36 @@ Proof.
   rewrite rev_involutive in Hn. specialize (Hn H1).
   destruct (trim_with space_suffix_len (List.length (a :: l1')) (rev (a :: l1'))); [contradiction|reflexivity].
 Qed.
+
+(* ---- lia-free versions of four GoLib lemmas ---- *)
+
+Lemma of_nat_gt1 n : (Z.of_nat n >? 1)%Z = Nat.ltb 1 n.
+Proof.
+  destruct n as [|[|n]]; [reflexivity|reflexivity|].
+  cbn [Z.of_nat Pos.of_succ_nat]. destruct (Pos.of_succ_nat n); reflexivity.
+Qed.
+
+Lemma str_len_gt1' s : (str_len s >? 1)%Z = Nat.ltb 1 (String.length s).
+Proof. apply of_nat_gt1. Qed.
+
+Lemma list_len_gt1' {A} (l : list A) : (list_len l >? 1)%Z = Nat.ltb 1 (List.length l).
+Proof. apply of_nat_gt1. Qed.
+
+Lemma list_len_zero' {A} (l : list A) : (list_len l =? 0)%Z = is_nil l.
+Proof. destruct l; reflexivity. Qed.
+
+Lemma index_from_byte c s : forall i, (0 <= i)%Z ->
+  (0 <=? str_index_from (String c EmptyString) s i)%Z = contains_byte c s.
+Proof.
+  induction s as [|a s IH]; intros i Hi; [reflexivity|].
+  cbn [str_index_from has_prefix contains_byte]. rewrite andb_true_r, (ascii_eqb_sym c a).
+  destruct (Ascii.eqb a c); cbn [orb].
+  - apply Z.leb_le. exact Hi.
+  - apply IH. rewrite Z.add_1_r. apply Z.le_le_succ_r. exact Hi.
+Qed.
+
+Lemma str_contains_byte' c s : str_contains (String c EmptyString) s = contains_byte c s.
+Proof. unfold str_contains, str_index. apply index_from_byte. apply Z.le_refl. Qed.
 
 (* ================================================================== *)
 (* Part B — abstraction: generated records / results / errors          *)
@@ -329,7 +373,7 @@ Theorem gen_scope_format sc :
   end.
 Proof.
   unfold gen_trustpolicy_validateRegistryScopeFormat, scope_ok. cbv zeta.
-  rewrite str_len_gt1, longer_than_1_ltb, str_contains_byte.
+  rewrite str_len_gt1', longer_than_1_ltb, str_contains_byte'.
   destruct (Nat.ltb 1 (String.length sc) && contains_byte "*" sc); [split; [reflexivity|vm_compute; reflexivity]|].
   rewrite str_cut_byte.
   destruct (cut_byte "/" sc) as [[d r]|]; [|split; [reflexivity|vm_compute; reflexivity]].
@@ -358,7 +402,7 @@ Theorem gen_artifact_path ref :
 Proof.
   unfold gen_trustpolicy_getArtifactPathFromReference. cbv zeta. rewrite last_index_at.
   destruct (last_at ref) as [p|] eqn:L.
-  - replace (Z.of_nat (String.length p) <? 0)%Z with false by (symmetry; apply Z.ltb_ge; lia).
+  - replace (Z.of_nat (String.length p) <? 0)%Z with false by (symmetry; apply Z.ltb_ge; apply Nat2Z.is_nonneg).
     rewrite (slice_last_at ref p L).
     pose proof (gen_scope_format p) as F.
     destruct (gen_trustpolicy_validateRegistryScopeFormat p) as [e|]; cbn [is_none negb].
@@ -546,18 +590,21 @@ Proof.
   cbn [existsb filter]. destruct (String.eqb k x); [reflexivity|exact IH].
 Qed.
 
+Lemma cnt_cons k x l : cnt k (x :: l) = if String.eqb k x then S (cnt k l) else cnt k l.
+Proof. unfold cnt. cbn [filter]. destruct (String.eqb k x); reflexivity. Qed.
+
 Lemma has_dup_cnt l : has_dup l = true <-> exists k, (2 <= cnt k l)%nat.
 Proof.
   induction l as [|x r IH]; cbn [has_dup].
-  - split; [discriminate|]. intros [k H]. cbn in H. lia.
+  - split; [discriminate|]. intros [k H]. inversion H.
   - rewrite orb_true_iff, IH. split.
     + intros [H|[k H]].
-      * exists x. rewrite cnt_mem in H. apply Nat.ltb_lt in H. unfold cnt in *. cbn [filter].
-        rewrite String.eqb_refl. cbn [List.length]. lia.
-      * exists k. unfold cnt in *. cbn [filter]. destruct (String.eqb k x); cbn [List.length]; lia.
-    + intros [k H]. unfold cnt in H. cbn [filter] in H. destruct (String.eqb k x) eqn:E.
-      * apply String.eqb_eq in E. subst x. left. rewrite cnt_mem. apply Nat.ltb_lt. unfold cnt.
-        cbn [List.length] in H. lia.
+      * exists x. rewrite cnt_cons, String.eqb_refl. apply le_n_S.
+        rewrite cnt_mem in H. apply Nat.ltb_lt in H. exact H.
+      * exists k. rewrite cnt_cons. destruct (String.eqb k x); [apply le_S; exact H|exact H].
+    + intros [k H]. rewrite cnt_cons in H. destruct (String.eqb k x) eqn:E.
+      * apply String.eqb_eq in E. subst x. left. rewrite cnt_mem. apply Nat.ltb_lt.
+        apply le_S_n. exact H.
       * right. exists k. exact H.
 Qed.
 
@@ -566,11 +613,12 @@ Lemma counts_add m seen sc :
   counts (map_set String.eqb sc (map_get_or String.eqb 0%Z sc m + 1)%Z m) (seen ++ [sc]).
 Proof.
   intros H k. unfold map_get_or. rewrite (map_get_set String.eqb string_eqb_spec').
-  rewrite cnt_app. unfold cnt at 2. cbn [filter].
+  rewrite cnt_app, Nat2Z.inj_add. unfold cnt at 2. cbn [filter].
   destruct (String.eqb k sc) eqn:E.
   - apply String.eqb_eq in E. subst k. pose proof (H sc) as Hs. unfold map_get_or in Hs. rewrite Hs.
-    cbn [List.length]. lia.
-  - pose proof (H k) as Hk. unfold map_get_or in Hk. rewrite Hk. cbn [List.length]. lia.
+    reflexivity.
+  - pose proof (H k) as Hk. unfold map_get_or in Hk. rewrite Hk. cbn [List.length Z.of_nat].
+    symmetry. apply Z.add_0_r.
 Qed.
 
 Lemma dup_loop m : forall l,
@@ -590,17 +638,21 @@ Proof.
   - intros H. right. apply IH. exact H.
 Qed.
 
+Lemma of_nat_gt1_iff c : (Z.of_nat c >? 1)%Z = true <-> (2 <= c)%nat.
+Proof. rewrite of_nat_gt1. apply Nat.ltb_lt. Qed.
+
 Lemma dup_check m seen :
   counts m seen ->
   existsb (fun kv => (map_get_or String.eqb 0%Z (fst kv) m >? 1)%Z) (map_entries String.eqb m) = has_dup seen.
 Proof.
   intros H. apply eq_true_iff_eq. rewrite existsb_exists, has_dup_cnt. split.
-  - intros [[k v] [_ Hk]]. cbn [fst] in Hk. exists k. rewrite H in Hk. apply Z.gtb_lt in Hk. lia.
-  - intros [k Hk]. pose proof (H k) as Hm. unfold map_get_or in Hm.
-    destruct (map_get String.eqb k m) as [v|] eqn:G; [|lia].
+  - intros [[k v] [_ Hk]]. cbn [fst] in Hk. exists k. rewrite H in Hk. apply of_nat_gt1_iff. exact Hk.
+  - intros [k Hk]. pose proof (H k) as Hm. apply of_nat_gt1_iff in Hk. rewrite <- Hm in Hk.
+    unfold map_get_or in Hk.
+    destruct (map_get String.eqb k m) as [v|] eqn:G; [|discriminate Hk].
     exists (k, v). split.
     + apply map_get_in. rewrite (map_get_entries String.eqb string_eqb_spec'). exact G.
-    + cbn [fst]. unfold map_get_or. rewrite G. apply Z.gtb_lt. lia.
+    + cbn [fst]. unfold map_get_or. rewrite G. exact Hk.
 Qed.
 
 (* what validateRegistryScopes demands of one scope / of the scopes of one statement *)
@@ -644,7 +696,7 @@ Proof.
   - cbn [gen_trustpolicy_validateRegistryScopes_loop1 forallb all_scopes flat_map andb].
     rewrite dup_loop, (dup_check m seen Hc), app_nil_r. reflexivity.
   - cbn [gen_trustpolicy_validateRegistryScopes_loop1 forallb all_scopes flat_map].
-    unfold scopes_fine at 1. rewrite list_len_zero, list_len_gt1, gen_Contains.
+    unfold scopes_fine at 1. rewrite list_len_zero', list_len_gt1', gen_Contains.
     destruct (OCITrustPolicy_RegistryScopes s) as [|sc0 scs0] eqn:Es; [reflexivity|].
     rewrite <- Es. cbn [is_nil negb andb].
     replace (is_nil (OCITrustPolicy_RegistryScopes s)) with false by (rewrite Es; reflexivity).
@@ -790,15 +842,19 @@ End OCIValidate.
 Section BlobValidate.
   Variable vpc : string -> trustpolicy_SignatureVerification -> list string -> list string -> option err.
 
+  (* at most one global statement, none when one was found before *)
+  Definition one_global {T} (fg : bool) (l : list T) : bool :=
+    match l with [] => true | [_] => negb fg | _ => false end.
+
   Lemma blob_validate_loop : forall ss pset names fg,
     (forall x, gen_container_Set_Contains_string pset x = mem_str x names) ->
     gen_trustpolicy_BlobDocument_Validate_loop1 vpc ss pset fg = None ->
     (forall s, In s ss -> mem_str (BlobTrustPolicy_Name s) names = false)
     /\ nodupb (map BlobTrustPolicy_Name ss) = true
-    /\ (List.length (filter BlobTrustPolicy_GlobalPolicy ss) + (if fg then 1 else 0) <= 1)%nat.
+    /\ one_global fg (filter BlobTrustPolicy_GlobalPolicy ss) = true.
   Proof.
     induction ss as [|s rest IH]; intros pset names fg Hn H.
-    - split; [intros s []|split; [reflexivity|destruct fg; cbn; lia]].
+    - split; [intros s []|split; reflexivity].
     - cbn [gen_trustpolicy_BlobDocument_Validate_loop1] in H. rewrite Hn in H.
       destruct (mem_str (BlobTrustPolicy_Name s) names) eqn:Es; [discriminate|].
       destruct (vpc _ _ _ _); cbn [is_none negb] in H; [discriminate|].
@@ -812,7 +868,8 @@ Section BlobValidate.
         destruct (String.eqb _ _) in H; [discriminate|].
         destruct (IH _ _ _ Hn' H) as [H1 [H2 H3]].
         destruct (fresh_names_nodup BlobTrustPolicy_Name s rest names H1 H2 Es) as [G1 G2].
-        split; [exact G1|split; [exact G2|cbn [List.length]; lia]].
+        split; [exact G1|split; [exact G2|]].
+        destruct (filter BlobTrustPolicy_GlobalPolicy rest) as [|a [|b l]]; [reflexivity|discriminate H3|discriminate H3].
       + destruct (IH _ _ _ Hn' H) as [H1 [H2 H3]].
         destruct (fresh_names_nodup BlobTrustPolicy_Name s rest names H1 H2 Es) as [G1 G2].
         split; [exact G1|split; [exact G2|exact H3]].
@@ -847,7 +904,7 @@ Section BlobValidate.
       with (map BlobTrustPolicy_Name (BlobDocument_TrustPolicies d)) by (rewrite map_map; reflexivity).
     rewrite H2. cbn [nodupb andb].
     destruct (filter BlobTrustPolicy_GlobalPolicy (BlobDocument_TrustPolicies d)) as [|a [|b l]];
-      [reflexivity|reflexivity|cbn in H3; lia].
+      [reflexivity|reflexivity|discriminate H3].
   Qed.
 End BlobValidate.
 
